@@ -13,9 +13,13 @@ def run(tier):
     conds = []
     for shape in range(3):
         for op0 in range(16):
+            if q and not (shape in (0, 2) and op0 not in (12, 13) or shape == 0 or (shape == 1 and op0 in (3, 5, 11))):
+                continue  # quick tier: shapes 0 and 2 for all cheap first operations, crossover/mutation first on shape 0, shape 1 (sender) for 3 ops
+            if q and shape == 2 and op0 in (12, 13):
+                continue
             conds.append(Cond("h_tree.py", "bookkeeping", to, twin="reach" if (op0 in (5, 9, 11) and shape == 0) else None,
                               path_timeout=to / 2, env=dict({"H_OP0": str(op0), "H_SHAPE": str(shape), "H_OPS": "2" if q else "3"},
-                                                            **({"H_MAXARG": "4", "H_LATER": "0,1,2,3,6,7,11,13"} if q else {}))))
+                                                            **({"H_MAXARG": "3", "H_LATER": "0,1,2,3,6,7,11,13"} if q else {}))))
     # constraint-driven repair must leave the individual it repairs untouched, too (inputs and outputs of the
     # repair pipeline are checked for consistent parent links / sizes / hashes)
     for spec in ("rep2", "range"):
@@ -29,7 +33,7 @@ def run(tier):
     run.bounds = {"initial trees": "3 shapes (<= 7 nodes; one with sender, one mixing 'x' / b'x' / bit leaves)",
                   "operations": "16 codes: add_child, set_children, symbol=, sender=, recipient=, deepcopy, slicing/indexing, selector searches, "
                                 "value/hash, split_end, prefix, replace, crossover, mutation, switch current tree, path accessors",
-                  "sequence length": 2 if q else 3, "operand": "node index 0..4 (quick) / 0..6 (mod size)", "later operations (quick)": "add_child, set_children, symbol=, sender=, slicing, searches, replace, mutation"}
+                  "sequence length": 2 if q else 3, "operand": "node index 0..3 (quick) / 0..6 (mod size)", "later operations (quick)": "add_child, set_children, symbol=, sender=, slicing, searches, replace, mutation"}
     run.outside = ["longer operation sequences", "RepetitionBoundsSuggestion repairs (see C01 operator harness)",
                    "parser-produced trees (ParserDerivationTree skips size updates by design)"]
     run.assumptions = ["finite operand domains -> the engine exhausts the sequences by path splitting",
